@@ -174,6 +174,71 @@ pub fn gen_key(r: &mut Rng) -> String {
     s
 }
 
+/// Keys that some part of the library knows by name.
+pub const WELL_KNOWN_KEYS: &[&str] = &["repository_url", "download_url", "vcs_url", "file_name", "classifier", "type", "platform", "arch", "os", "distro", "epoch"];
+
+/// A valid key one small edit away from `k`: another of `_`, `-`, `.` in place of one (or
+/// every) separator, a character dropped, doubled or appended, or a neighbouring letter.
+/// Keys that differ this little must still be different keys.
+pub fn near_key(r: &mut Rng, k: &str) -> String {
+    let b: Vec<char> = k.chars().collect();
+    if b.is_empty() || !b.iter().all(|c| c.is_ascii_alphanumeric() || "._-".contains(*c)) {
+        return gen_key(r);
+    }
+    let seps: Vec<usize> = (1..b.len()).filter(|&i| "._-".contains(b[i])).collect();
+    let mut o = b.clone();
+    match r.below(7) {
+        0 | 1 if !seps.is_empty() => {
+            let i = *r.pick(&seps);
+            o[i] = *r.pick(&['_', '-', '.']);
+        },
+        2 if !seps.is_empty() => {
+            let c = *r.pick(&['_', '-', '.']);
+            for i in seps {
+                o[i] = c;
+            }
+        },
+        3 if b.len() > 1 => {
+            o.remove(r.range(1, b.len() - 1));
+        },
+        4 => {
+            let i = r.below(b.len());
+            o.insert(i + 1, b[i]);
+        },
+        5 => o.push(*r.pick(&['s', '_', '-', '.', '1', '0'])),
+        _ => {
+            let i = r.below(b.len());
+            if b[i].is_ascii_alphabetic() {
+                o[i] = match b[i] {
+                    'z' => 'y',
+                    'Z' => 'Y',
+                    c => (c as u8 + 1) as char,
+                };
+            } else if i > 0 {
+                o[i] = '_';
+            }
+        },
+    }
+    o.into_iter().collect()
+}
+
+/// A key for a collection that already holds `existing`: fresh, well-known, or a near miss of
+/// a key that is already there / of a well-known key.
+pub fn gen_key_among(r: &mut Rng, existing: &[String]) -> String {
+    match r.below(12) {
+        0 => r.pick(WELL_KNOWN_KEYS).chars().map(|c| if r.chance(1, 4) { c.to_ascii_uppercase() } else { c }).collect(),
+        1 => {
+            let k = r.pick(WELL_KNOWN_KEYS).to_string();
+            near_key(r, &k)
+        },
+        2 | 3 if !existing.is_empty() => {
+            let k = r.pick(existing).clone();
+            near_key(r, &k)
+        },
+        _ => gen_key(r),
+    }
+}
+
 /// An algorithm name that is a fixpoint of per-character lower-casing and has no ','.
 /// Algorithm names related by prefix (sorting "sha2" before "sha256" needs the name, not the
 /// formatted entry), and Greek names whose last letter is a sigma (context-sensitive
@@ -238,7 +303,8 @@ pub fn gen_tuple(r: &mut Rng, known: bool) -> Tuple {
     let nq = *r.pick(&[0usize, 0, 1, 2, 3, 8, 12, 24]);
     let mut quals: Vec<(String, String)> = Vec::new();
     for _ in 0..nq {
-        let k = gen_key(r);
+        let have: Vec<String> = quals.iter().map(|(k, _)| k.clone()).collect();
+        let k = gen_key_among(r, &have);
         let lk = ascii_lower(&k);
         if lk == "checksum" || quals.iter().any(|(x, _)| ascii_lower(x) == lk) {
             continue;
